@@ -66,6 +66,19 @@ def detect_renames(raw, base):
             back = [x for x in new if base[m]["parent"] == cur[x]["parent"] and base[m]["kind"] == cur[x]["kind"] and _sig_key(base[m]["sig"]) == _sig_key(cur[x]["sig"])]
             if len(back) == 1:
                 ren[n] = m
+    # moved: same item name and signature under another parent (free fn <-> associated fn included) (a private helper moved to another
+    # module, a module-level fn nested into its only caller or the reverse), unique both ways
+    def base_name(p):
+        return p.rsplit("::", 1)[-1]
+    left_new = [n for n in new if n not in ren]
+    left_missing = [m for m in missing if m not in ren.values()]
+    for n in left_new:
+        same = lambda a, b, ta, tb: base_name(a) == base_name(b) and _sig_key(ta[a]["sig"]) == _sig_key(tb[b]["sig"])  # noqa: E731
+        cands = [m for m in left_missing if same(n, m, cur, base)]
+        if len(cands) == 1:
+            back = [x for x in left_new if same(x, cands[0], cur, base)]
+            if len(back) == 1:
+                ren[n] = cands[0]
     return ren
 
 
@@ -214,6 +227,217 @@ def inline_new_functions(raw, base, log):
         log.append("inlined new private function %s at %d call site(s)" % (p, n))
 
 
+# ------------------------------------------------------------------------------------------------
+def _subst_captures(o, env_local, env_is_ref, captures):
+    """Places rooted at the closure's environment parameter (`_1.k` / `(*_1).k`) become the place the
+    closure captured there, in the caller's locals. Returns False if a use of the environment cannot be
+    expressed that way."""
+    ok = [True]
+
+    def walk(x):
+        if isinstance(x, list):
+            for y in x:
+                walk(y)
+        elif isinstance(x, dict):
+            if "l" in x and "p" in x and isinstance(x.get("p"), list) and x["l"] == env_local:
+                pr = x["p"]
+                k = 1 if env_is_ref else 0
+                if len(pr) > k and (not env_is_ref or pr[0].get("k") == "deref") and pr[k].get("k") == "field" and pr[k].get("i") in captures:
+                    cap = captures[pr[k]["i"]]
+                    x["l"] = cap["l"]
+                    x["p"] = list(cap["p"]) + pr[k + 1:]
+                else:
+                    ok[0] = False
+            for v in x.values():
+                walk(v)
+
+    walk(o)
+    return ok[0]
+
+
+def desugar_bool_then(raw, log):
+    """`c.then(|| body)` is `if c { Some(body) } else { None }`: the closure is called at most once, right
+    there, so its MIR is spliced in under a switch on `c` (captured places written in the caller's terms).
+    This makes the combinator spelling and the `if` spelling the same program for every rule."""
+    by_path = {}
+    for b in raw["bodies"]:
+        if b.get("promoted") is None:
+            by_path.setdefault(b["path"], b)
+    n_done = 0
+    for caller in raw["bodies"]:
+        changed = True
+        guard = 0
+        while changed and guard < 20:
+            changed = False
+            guard += 1
+            for bi, blk in enumerate(caller["blocks"]):
+                t = blk["term"]
+                if t["k"] != "call" or (t.get("resolved") or t.get("callee")) != "core::bool::<impl bool>::then" or len(t["args"]) != 2:
+                    continue
+                cop = t["args"][1]
+                if cop.get("k") not in ("move", "copy") or cop["place"]["p"]:
+                    continue
+                cl = cop["place"]["l"]
+                aggs = [s for bl in caller["blocks"] for s in bl["stmts"] if s["k"] == "assign" and s["place"]["l"] == cl and not s["place"]["p"]]
+                if len(aggs) != 1 or aggs[0]["rv"].get("k") != "agg" or aggs[0]["rv"].get("ak") != "closure":
+                    continue
+                callee = by_path.get(aggs[0]["rv"]["closure"])
+                if callee is None or callee.get("arg_count") != 1 or callee is caller:
+                    continue
+                captures = {}
+                good = True
+                for k, o in enumerate(aggs[0]["rv"]["ops"]):
+                    if o.get("k") in ("move", "copy"):
+                        captures[k] = {"l": o["place"]["l"], "p": o["place"]["p"]}
+                    else:
+                        good = False
+                if not good:
+                    continue
+                callee = copy.deepcopy(callee)
+                lbase, bbase = len(caller["locals"]), len(caller["blocks"])
+                env_is_ref = callee["locals"][1]["ty"].startswith("&")
+                new_blocks = []
+                for cb in callee["blocks"]:
+                    nb = _remap(cb, lambda l: l + lbase, lambda x: x + bbase)
+                    nb["i"] = cb["i"] + bbase
+                    nb["cleanup"] = cb["cleanup"] or blk["cleanup"]
+                    nb["inlined_from"] = callee["path"]
+                    new_blocks.append(nb)
+                if not _subst_captures(new_blocks, lbase + 1, env_is_ref, captures):
+                    continue
+                span = t.get("span")
+                dest, cont, unwind = t["dest"], t.get("t"), t.get("unwind")
+                opt_ty = dest.get("ty")
+                for loc in callee["locals"]:
+                    nl = dict(loc)
+                    nl["i"] = loc["i"] + lbase
+                    nl["inlined_from"] = callee["path"]
+                    caller["locals"].append(nl)
+                for v in callee.get("vars", []):
+                    nv = _remap(v, lambda l: l + lbase, lambda x: x + bbase)
+                    nv.pop("arg", None)
+                    nv["inlined_from"] = callee["path"]
+                    if _subst_captures(nv, lbase + 1, env_is_ref, captures):
+                        caller["vars"].append(nv)
+                none_blk = bbase + len(new_blocks)
+                for nb in new_blocks:
+                    tt = nb["term"]
+                    if tt["k"] == "return":
+                        ret = {"l": lbase, "p": [], "ty": callee["locals"][0]["ty"]}
+                        nb["stmts"].append({"k": "assign", "place": dest, "span": tt.get("span"), "inlined_ret": True,
+                                            "rv": {"k": "agg", "ak": "adt", "adt": "core::option::Option", "variant": "Some", "vi": 1, "fields": ["0"], "ops": [{"k": "move", "place": ret}]}})
+                        nb["term"] = {"k": "goto", "t": cont, "span": tt.get("span")} if cont is not None else {"k": "unreachable", "span": tt.get("span")}
+                    elif tt["k"] == "resume" and unwind is not None:
+                        nb["term"] = {"k": "goto", "t": unwind, "span": tt.get("span")}
+                    caller["blocks"].append(nb)
+                caller["blocks"].append({"i": none_blk, "cleanup": blk["cleanup"], "inlined_from": callee["path"],
+                                         "stmts": [{"k": "assign", "place": dest, "span": span, "rv": {"k": "agg", "ak": "adt", "adt": "core::option::Option", "variant": "None", "vi": 0, "fields": [], "ops": []}}],
+                                         "term": {"k": "goto", "t": cont, "span": span} if cont is not None else {"k": "unreachable", "span": span}})
+                blk["term"] = {"k": "switch", "discr": t["args"][0], "dty": "bool", "arms": [[0, none_blk]], "otherwise": bbase, "span": span, "desugared": "bool::then"}
+                by_path[callee["path"]]["inlined_away"] = True
+                n_done += 1
+                changed = True
+                break
+    if n_done:
+        log.append("desugared %d `bool::then(closure)` call(s) into if/else with the closure body in place" % n_done)
+
+
+_LAZY = {  # lazy combinator -> (eager twin, index of the closure argument)
+    "core::option::Option::<T>::ok_or_else": ("core::option::Option::<T>::ok_or", 1),
+    "core::option::Option::<T>::unwrap_or_else": ("core::option::Option::<T>::unwrap_or", 1),
+    "core::result::Result::<T, E>::unwrap_or_else": ("core::result::Result::<T, E>::unwrap_or", 1),
+    "core::option::Option::<T>::or_else": ("core::option::Option::<T>::or", 1),
+    "core::result::Result::<T, E>::or_else": ("core::result::Result::<T, E>::or", 1),
+    "core::option::Option::<T>::map_or_else": ("core::option::Option::<T>::map_or", 1),
+}
+
+
+def _constant_closure(callee):
+    """The statements of a closure that captures nothing, ignores its parameters and builds its result from
+    literals only (`|| Error::X`, `|_| Err(Error::Y)`, `|| 0`): [(place, rvalue)] in order, or None."""
+    blocks = [b for b in callee["blocks"] if not b["cleanup"]]
+    if len(blocks) != 1 or blocks[0]["term"]["k"] != "return":
+        return None
+    out = []
+    defined = set()
+
+    def const_op(o):
+        if o.get("k") == "const":
+            return True
+        return o.get("k") in ("move", "copy") and not o["place"]["p"] and o["place"]["l"] in defined
+
+    for st in blocks[0]["stmts"]:
+        if st["k"] in ("live", "dead", "nop", "fake"):
+            continue
+        if st["k"] != "assign" or st["place"]["p"]:
+            return None
+        rv = st["rv"]
+        if rv["k"] == "use" and const_op(rv["op"]):
+            pass
+        elif rv["k"] == "agg" and rv.get("ak") in ("adt", "tuple") and all(const_op(o) for o in rv["ops"]):
+            pass
+        else:
+            return None
+        defined.add(st["place"]["l"])
+        out.append(st)
+    return out if 0 in defined else None
+
+
+def desugar_lazy_constants(raw, log):
+    """`x.ok_or_else(|| Error::E)` is `x.ok_or(Error::E)` (likewise unwrap_or_else / or_else / map_or_else) when
+    the closure captures nothing and only builds a literal: building it eagerly has no observable effect."""
+    by_path = {}
+    for b in raw["bodies"]:
+        if b.get("promoted") is None:
+            by_path.setdefault(b["path"], b)
+    n_done = 0
+    for caller in raw["bodies"]:
+        for blk in caller["blocks"]:
+            t = blk["term"]
+            if t["k"] != "call":
+                continue
+            key = t.get("resolved") or t.get("callee")
+            if key not in _LAZY or len(t["args"]) < 2:
+                continue
+            eager, k = _LAZY[key]
+            cop = t["args"][k]
+            if cop.get("k") not in ("move", "copy") or cop["place"]["p"]:
+                continue
+            cl = cop["place"]["l"]
+            aggs = [st for bl in caller["blocks"] for st in bl["stmts"] if st["k"] == "assign" and st["place"]["l"] == cl and not st["place"]["p"]]
+            if len(aggs) != 1 or aggs[0]["rv"].get("k") != "agg" or aggs[0]["rv"].get("ak") != "closure" or aggs[0]["rv"]["ops"]:
+                continue
+            callee = by_path.get(aggs[0]["rv"]["closure"])
+            if callee is None:
+                continue
+            sts = _constant_closure(callee)
+            if sts is None:
+                continue
+            lbase = len(caller["locals"])
+            for loc in callee["locals"]:
+                nl = dict(loc)
+                nl["i"] = loc["i"] + lbase
+                nl["inlined_from"] = callee["path"]
+                caller["locals"].append(nl)
+            for st in sts:
+                ns = _remap(copy.deepcopy(st), lambda l: l + lbase, lambda x: x)
+                ns["span"] = t.get("span")
+                blk["stmts"].append(ns)
+            t["args"][k] = {"k": "move", "place": {"l": lbase, "p": [], "ty": callee["locals"][0]["ty"]}}
+            for f in ("callee", "resolved"):
+                if t.get(f) == key:
+                    t[f] = eager
+            if t.get("callee_name"):
+                t["callee_name"] = eager.rsplit("::", 1)[-1]
+            fc = t.get("func", {}).get("c") or {}
+            if fc.get("fn") == key:
+                fc["fn"] = eager
+            t["desugared"] = key
+            n_done += 1
+    if n_done:
+        log.append("%d lazy combinator(s) with a literal-only closure (`ok_or_else(|| E)` ...) read as their eager twin" % n_done)
+
+
 ADT_TABLE = os.path.join(HERE, "tables", "baseline_adts.json")
 _BASE_ADTS = None
 
@@ -281,6 +505,94 @@ def rename_fields(raw, base, log):
         log.append("private field %s.%s is treated as the renamed %s (same position and type)" % (path, n, o))
 
 
+CLOSURE_TABLE = os.path.join(HERE, "tables", "baseline_closures.json")
+_BASE_CL = None
+
+
+def baseline_closures():
+    global _BASE_CL
+    if _BASE_CL is None:
+        try:
+            with open(CLOSURE_TABLE) as f:
+                _BASE_CL = json.load(f)
+        except OSError:
+            _BASE_CL = {}
+    return _BASE_CL
+
+
+def closure_table(raw):
+    """{parent path: [signature key of closure#0, closure#1, ...]}; the key is (result type, parameter types):
+    the environment parameter is left out, its type only names a source position."""
+    out = {}
+    for b in raw["bodies"]:
+        if b.get("promoted") is not None or not b["kind"].startswith("Closure"):
+            continue
+        m = re.match(r"^(.*)::\{closure#(\d+)\}$", b["path"])
+        if not m:
+            continue
+        tys = [l["ty"] for l in b["locals"][:b["arg_count"] + 1]]
+        key = re.sub(r"\{closure@[^}]*\}", "{closure}", " | ".join([tys[0]] + tys[2:]))
+        out.setdefault(m.group(1), {})[int(m.group(2))] = key
+    return {p: [d.get(i, "?") for i in range(max(d) + 1)] for p, d in out.items()}
+
+
+def _lcs_pairs(a, b):
+    n, m = len(a), len(b)
+    t = [[0] * (m + 1) for _ in range(n + 1)]
+    for i in range(n - 1, -1, -1):
+        for j in range(m - 1, -1, -1):
+            t[i][j] = t[i + 1][j + 1] + 1 if a[i] == b[j] else max(t[i + 1][j], t[i][j + 1])
+    pairs, i, j = [], 0, 0
+    while i < n and j < m:
+        if a[i] == b[j]:
+            pairs.append((i, j))
+            i += 1
+            j += 1
+        elif t[i + 1][j] >= t[i][j + 1]:
+            i += 1
+        else:
+            j += 1
+    return pairs
+
+
+def renumber_closures(text, raw, base_cl, log):
+    """rustc numbers the closures of a function in source order, so adding or removing one closure renames all
+    later ones. The closures of each function are aligned with the reference list by signature (longest common
+    subsequence, order preserving); aligned closures get their reference number back, the others numbers
+    beyond the reference range. Outer functions first, one nesting level per pass."""
+    for _ in range(4):
+        cur = closure_table(raw)
+        ren = {}
+        for parent in sorted(cur, key=lambda p: p.count("{closure#")):
+            if parent not in base_cl or cur[parent] == base_cl[parent]:
+                continue
+            c, bl = cur[parent], base_cl[parent]
+            pairs = dict(_lcs_pairs(c, bl))
+            nxt = max(len(bl), len(c))
+            m = {}
+            for i in range(len(c)):
+                if i in pairs:
+                    m[i] = pairs[i]
+                else:
+                    m[i] = nxt
+                    nxt += 1
+            if any(i != j for i, j in m.items()):
+                ren[parent] = m
+                break  # one parent per pass: inner paths change with the outer one
+        if not ren:
+            break
+        parent, m = list(ren.items())[0]
+        tmp = text
+        for i, j in m.items():
+            if i != j:
+                tmp = tmp.replace(json.dumps(parent)[1:-1] + "::{closure#%d}" % i, json.dumps(parent)[1:-1] + "::{closure@@%d}" % j)
+        # short display names inside shapes are derived from paths at load time; only paths are stored
+        text = tmp.replace("{closure@@", "{closure#")
+        raw = json.loads(text)
+        log.append("closures of %s renumbered to the reference numbering (%s)" % (parent, ", ".join("#%d->#%d" % (i, j) for i, j in sorted(m.items()) if i != j)))
+    return text, raw
+
+
 def apply(text):
     """text of a fact file -> (normalised raw dict, log)."""
     base = baseline()
@@ -290,13 +602,19 @@ def apply(text):
         return raw, log
     ren = detect_renames(raw, base)
     if ren:
-        raw = json.loads(rename_text(text, ren))
+        text = rename_text(text, ren)
+        raw = json.loads(text)
         for n, m in sorted(ren.items()):
-            log.append("function %s is treated as the renamed %s (same parent, kind and signature)" % (n, m))
+            log.append("function %s is treated as the renamed or moved %s (same kind and signature; same parent or same name)" % (n, m))
+    bc = baseline_closures()
+    if bc:
+        text, raw = renumber_closures(text, raw, bc, log)
     ba = baseline_adts()
     if ba:
         rename_fields(raw, ba, log)
     inline_new_functions(raw, base, log)
+    desugar_bool_then(raw, log)
+    desugar_lazy_constants(raw, log)
     return raw, log
 
 
@@ -319,3 +637,11 @@ if __name__ == "__main__":
     with open(ADT_TABLE, "w") as f:
         json.dump(at, f, indent=0, sort_keys=True)
     print("wrote", ADT_TABLE, len(at), "structs")
+    ct = {}
+    for cfg in ("ram", "default"):
+        p, th, _ = extract.facts_path(cfg)
+        with open(p) as f:
+            ct.update(closure_table(json.load(f)))
+    with open(CLOSURE_TABLE, "w") as f:
+        json.dump(ct, f, indent=0, sort_keys=True)
+    print("wrote", CLOSURE_TABLE, len(ct), "functions with closures")
